@@ -52,7 +52,7 @@ class C16Check(ExplainerCheck):
     def gen(self, seed, tier, run_index):
         rng = seeds.run_rng(seed, self.prop, tier, run_index)
         stratum = run_index % 8
-        arith = wchoice(rng, [("exact", 30), ("float", 45), ("npfloat", 25)])
+        arith = wchoice(rng, [("exact", 28), ("float", 40), ("npfloat", 22), ("npfloat32", 10)])
         kw = {"arith": arith}
         if stratum == 2:
             kw["d"] = 1
